@@ -472,7 +472,7 @@ class Gen:
                 res[-1] = ("lit", res[-1][1] + it[1])
             else:
                 res.append(it)
-        return res
+        return res or [("lit", b"x")]     # ninja treats a textually empty command / rspfile as missing
 
     def stmt_rule(self, out, scope):
         r = self.rng
